@@ -117,6 +117,15 @@ def doc_versions(rng, n, directed=False):
         parts["mismatch"] = not parts["mismatch"]
         parts["self"] = not parts["self"]
         steps.append(("doc", render(), "reopen_changed"))
+        # an edit elsewhere changes what the document's findings should be; the document is then re-sent unchanged
+        parts["und2"] = True
+        steps.append(("doc", render(), "add_und2"))
+        pkg_has_fd = not pkg_has_fd
+        steps.append(("pkg_conf", PKG_CONF if pkg_has_fd else HDR, "pkg_conf_" + ("add_fd" if pkg_has_fd else "remove_fd")))
+        steps.append(("doc", render(), "resend_after_conftest_edit"))
+        root_has_fa = not root_has_fa
+        steps.append(("root_conf", ROOT_CONF if root_has_fa else HDR + fx("fb") + fx("fc", scope="module"), "root_conf_toggle_fa"))
+        steps.append(("doc", render(), "resend_after_conftest_edit"))
     for _ in range(n):
         r = rng.random()
         if r < 0.55:
@@ -258,19 +267,29 @@ def run(ctx):
                         opened.discard(tgt)
                         hist.append((tgt, op))
                         continue
+                    if op == "burst_first":
+                        burst_text = text             # sent together with the next version, in one write
+                        hist.append((tgt, op))
+                        continue
                     before = srv.seq
-                    (srv.did_change if tgt in opened else srv.did_open)(p, text)
+                    if op == "burst_second":
+                        with srv.batch():
+                            (srv.did_change if tgt in opened else srv.did_open)(p, burst_text)
+                            srv.did_change(p, text)
+                    else:
+                        (srv.did_change if tgt in opened else srv.did_open)(p, text)
                     opened.add(tgt)
                     hist.append((tgt, op))
                     cur[tgt] = text
                     if vh.call(op="parses", text=text)["ok"]:
                         last_valid[tgt] = text
-                    if op == "burst_first":
-                        continue                      # no waiting, no other work: the next version follows immediately
                     got = srv.wait_diagnostics(p, before, timeout=20)
                     if op == "burst_second":
-                        # both versions publish; quiesce (a request is answered after the notifications before it were
-                        # handled), then the LAST notification for the document is the one the editor shows
+                        # both versions publish; wait for both notifications, quiesce (a request is answered after the
+                        # notifications before it were handled), then the LAST notification is the one the editor shows
+                        t_end = time.time() + 15
+                        while time.time() < t_end and sum(1 for sq, _ in srv.diag.get(path_to_uri(p), []) if sq > before) < 2:
+                            srv.pump(0.1)
                         srv.document_symbol(p)
                         srv.pump(0.3)
                         allp = srv.diag.get(path_to_uri(p), [])
